@@ -30,7 +30,8 @@ LEVEL_TEXT = ("For every McpPydanticBase subclass discovered under chuk_mcp.prot
               "introspection and driven with an instance carrying a unique sentinel in each aliased field; the sentinel must "
               "leave under the wire name."
               " The exclude_none dump (the wire form) must keep everything inside untyped payloads, nulls included."
-              " Part C: initialize / tools/list / resources/list results compared with the server's typed configuration under both backends.")
+              " Part C: initialize / tools/list / resources/list results compared with the server's typed configuration under both backends."
+              ' Also the pinned specification examples (must validate and come back whole), unknown members spelled like the Python name of an aliased field, and (part D) typed models inside messages written through the stdio, SSE and Streamable HTTP transports, decoded at the peer.')
 LEVEL_NOTE = ("Trusted: generator's notion of spec-valid; int for a declared-float field compares numerically. Serialisers "
               "that need further required arguments the harness cannot synthesise are listed in evidence as not driven.")
 RULE = ("A: case = (model class, wire object, backend); non-trivial = object has >=1 member. B: case = (serialiser, model "
